@@ -193,7 +193,7 @@ Definition case_head (a : operand) (bs : list (list node)) : bool :=
 
 Fixpoint fa_node (x : node) : bool :=
   match x with
-  | NWord _ | NLet _ _ | NNewSwitch _ | NSetSwitch _ _ | NStep _ | NSetC _ _ | NAddC _ _ => true
+  | NWord _ | NLet _ _ | NNewSwitch _ | NSetSwitch _ _ | NStep _ | NSetC _ _ | NAddC _ _ | NExpandAfter _ _ => true
   | NGroup b => forallb fa_node b
   | NDef _ _ np d b => Nat.eqb np 0 && is_none d && forallb fa_node b
   | NCall _ o a => opt_ok o && forallb (forallb fa_node) a
@@ -206,7 +206,7 @@ Fixpoint fa_node (x : node) : bool :=
    parameter, may sit at any depth: the result of a substitution contains the arguments *)
 Fixpoint fb_node (n : nat) (x : node) (d : nat) {struct x} : bool :=
   match x with
-  | NWord _ | NLet _ _ | NNewSwitch _ | NSetSwitch _ _ | NStep _ | NSetC _ _ | NAddC _ _ => true
+  | NWord _ | NLet _ _ | NNewSwitch _ | NSetSwitch _ _ | NStep _ | NSetC _ _ | NAddC _ _ | NExpandAfter _ _ => true
   | NParam k => Nat.leb 1 k && Nat.leb k n
   | NGroup b => fa_node x || match d with O => false | S d' => forallb (fun y => fb_node n y d') b end
   | NDef _ _ np dflt b =>
@@ -235,7 +235,7 @@ Fixpoint fb_node (n : nat) (x : node) (d : nat) {struct x} : bool :=
 (* the body of a definition with m parameters of its own (##k) written inside the body of a macro with n parameters (#k) *)
 Fixpoint fi_node (n m : nat) (x : node) (d : nat) {struct x} : bool :=
   match x with
-  | NWord _ | NLet _ _ | NNewSwitch _ | NSetSwitch _ _ | NStep _ | NSetC _ _ | NAddC _ _ => true
+  | NWord _ | NLet _ _ | NNewSwitch _ | NSetSwitch _ _ | NStep _ | NSetC _ _ | NAddC _ _ | NExpandAfter _ _ => true
   | NParam k => Nat.leb 1 k && Nat.leb k n
   | NParam2 k => Nat.leb 1 k && Nat.leb k m
   | NGroup b => match d with O => false | S d' => forallb (fun y => fi_node n m y d') b end
@@ -301,7 +301,7 @@ Definition fv_node (x : node) : bool :=
 Fixpoint f2_node (x : node) : bool :=
   match x with
   | NWord _ | NLet _ _ | NNewSwitch _ | NSetSwitch _ _ | NStep _ | NSetC _ _ | NAddC _ _ => true
-  | NExpandAfter _ _ => true      (* in program text only (not in bodies or arguments); what it needs of the two macros: [gsafe] *)
+  | NExpandAfter _ _ => true      (* what it needs of the two macros is checked along the evaluation: [gsafe] *)
   | NGroup b => forallb f2_node b
   | NDef g _ np d b =>
       match d with
